@@ -132,10 +132,13 @@ theorem sstLoad2_abs {st : St} (i : Inv st) {n' : String} (h : n' ≠ sstKey) :
     simp only []
     rw [absAt_eq, absAt_eq]
     show absOf (load st.pkg n') (rtOf (erase st.temp Facts.C12.sstTempKey) (erase st.disk id) n') = _
-    have := rt_remove i.core (i.sst1 id hs) n'
-    unfold sstKey at this h
-    rw [this]
-    simp [h]
+    rcases i.sst1 id hs with hl | ⟨hn, hd⟩
+    · have := rt_remove i.core hl n'
+      unfold sstKey at this h
+      rw [this]
+      simp [h]
+    · have e1 : erase st.temp Facts.C12.sstTempKey = st.temp := erase_of_load_none _ _ hn
+      rw [e1, erase_of_not_mem _ _ hd]
 
 /-- the state of sharedStringsLoader after promoting the spilled table and removing its file -/
 def sstLoadMid (st : St) (id : Nat) : St :=
@@ -161,8 +164,7 @@ theorem sstLoadMid_inv {st : St} (i : Inv st) {id : Nat} (h : load st.temp Facts
   · intro j hj
     have hj' : (readBytes st Facts.C12.sstPath).1.sstTemp = some j := hj
     rw [f.2.2.2] at hj'
-    show load (erase st.temp Facts.C12.sstPath) sstKey = some j
-    rw [load_erase_ne _ sstKey_ne_sstPath]; exact i.sst1 j hj'
+    exact sst1_erase Facts.C12.sstPath id (i.sst1 j hj') (fun e => sstKey_ne_sstPath e.symm)
   · intro hj
     have hj' : (readBytes st Facts.C12.sstPath).1.sstTemp = none := hj
     rw [f.2.2.2] at hj'
